@@ -236,6 +236,20 @@ let rec pr_getters b (a : avp) =
   if not !rendered then Buffer.add_char b '?';
   Buffer.add_char b ']'
 
+(* ---------- stream scripts ---------- *)
+let parse_rscript t : rev0 list =
+  let n = next_int t in
+  parse_list t (fun t -> match next t with
+    | "p" -> RPending | "e" -> REof | "x" -> RErr
+    | s when String.length s >= 2 && String.sub s 0 2 = "c:" -> RChunk (bytes_of_tok ("x" ^ String.sub s 2 (String.length s - 2)))
+    | s -> raise (Parse ("rev " ^ s))) n
+let parse_wscript t : wev list =
+  let n = next_int t in
+  parse_list t (fun t -> match next t with
+    | "p" -> WPending | "x" -> WErr
+    | s when String.length s >= 2 && String.sub s 0 2 = "a:" -> WAccept (n_of_hex (String.sub s 2 (String.length s - 2)))
+    | s -> raise (Parse ("wev " ^ s))) n
+
 let rec index_of_phys (x : avp) (l : avp list) (i : int) : int option =
   match l with [] -> None | y :: ys -> if y == x then Some i else index_of_phys x ys (i + 1)
 
@@ -328,6 +342,58 @@ let handle (line : string) : string =
         | Err -> Buffer.add_string b "R err"
         | Panic -> Buffer.add_string b "PANIC"
         | OutOfFuel -> Buffer.add_string b "OUTOFFUEL")
+   | "SD" ->
+       let ds = get_dict (next t) in
+       let k = next_int t in
+       let rs = parse_rscript t in
+       let total = List.length (all_bytes rs) in
+       Buffer.add_string b "SD";
+       let rec go k s =
+         if k > 0 then begin
+           let (r, s') = codec_decode (nat_of_int !lim) (dict_fn ds) s in
+           (match r with
+            | DOk m -> Buffer.add_string b " [OK "; pr_msg b m
+            | DEof -> Buffer.add_string b " [EOF"
+            | DErr -> Buffer.add_string b " [ERR"
+            | DPanic -> Buffer.add_string b " [PANIC");
+           Buffer.add_string b (Printf.sprintf " @%d]" (total - List.length (all_bytes s')));
+           go (k - 1) s'
+         end in
+       go k rs
+   | "SE" ->
+       let ds = get_dict (next t) in
+       let (start, ops) = parse_history t in
+       (match hstart_msg (nat_of_int !lim) ds.ds_avps start with
+        | Ok m0 ->
+            let (m, _) = hrun ds.ds_avps m0 ops in
+            let ws = parse_wscript t in
+            let ((ok, acc), _) = codec_encode m ws in
+            Buffer.add_string b (if ok then "SE ok " else "SE err "); Buffer.add_string b (tok_of_bytes acc)
+        | _ -> Buffer.add_string b "R err")
+   | "SV" ->
+       let ds = get_dict (next t) in
+       let rs = parse_rscript t in
+       let ws = parse_wscript t in
+       let na = next_int t in
+       let answers = parse_list t (fun t -> match next t with
+         | "F" -> None
+         | "A" -> let dsa = get_dict (next t) in
+                  let (start, ops) = parse_history t in
+                  (match hstart_msg (nat_of_int !lim) dsa.ds_avps start with
+                   | Ok m0 -> Some (fst (hrun dsa.ds_avps m0 ops))
+                   | _ -> raise (Parse "answer history failed"))
+         | s -> raise (Parse ("answer " ^ s))) na in
+       let h seen _req = (match List.nth_opt answers (List.length seen) with Some a -> a | None -> None) in
+       let total = List.length (all_bytes rs) in
+       (match serve h (nat_of_int !lim) (dict_fn ds) rs ws with
+        | Some o ->
+            Buffer.add_string b "SV ";
+            Buffer.add_string b (match o.so_res with SClosed -> "closed" | SFailed -> "failed" | SPanicked -> "panicked");
+            Buffer.add_string b " CALLS "; Buffer.add_string b (string_of_int (List.length o.so_calls));
+            List.iter (fun m -> Buffer.add_string b " ["; pr_msg b m; Buffer.add_char b ']') o.so_calls;
+            Buffer.add_string b " WRITTEN "; Buffer.add_string b (tok_of_bytes o.so_written);
+            Buffer.add_string b (Printf.sprintf " CONSUMED %d" (total - List.length (all_bytes o.so_rs)))
+        | None -> Buffer.add_string b "OUTOFFUEL")
    | "X" ->
        let ds = get_dict (next t) in
        let bs = next_bytes t in
